@@ -29,11 +29,17 @@ EXPRESSIONS (e : T means "e has inferred type T")
   len(l) prod(l) math.prod(l) sum(l) list(l) tuple(l)          py_len py_prod py_prod py_sum, identity, identity
   [a, b], (a, b), l[i], l[a:], p[0] / p[1] on a pair           list, pair, py_index (IndexError), py_slice_from, fst / snd
   filter(lambda t: c, l), all(c for t in l), all(l)            List.filter, List.forallb with a pure c / on a list of bools
-  [e for x in l], tuple(e for x in l), list(e for x in l)      map (fun x => e) l;  py_mapM (left to right) when e can raise
+  any(c for t in l)                                             negb (forallb (fun t => negb c) l); any(not c ..) = negb (forallb c ..)
+  [e for x in l], tuple(e for x in l), list(e for x in l)      map (fun x => e) l;  py_mapM (left to right) when e can raise;
+  [.. for x in l if c]                                          the same over filter (fun x => c) l, c pure
+  [a, *l, b]                                                    [a] ++ l ++ [b]
+  accumulate(l, initial=a)                                      py_accumulate ([a] ++ l), i.e. accumulate(chain([a], l))
   len(set(l))                                                   py_len_set: number of distinct ints (a set is not a value otherwise)
   enumerate(l)                                                  py_enumerate: [(0, l0); (1, l1); ...]
   sorted(l, key=operator.itemgetter(1) | lambda p: p[1], reverse=True)
                                                                 py_sorted_desc_snd: STABLE, descending in the int second component
+  sorted(idx, key=l.__getitem__, reverse=True)                  py_sorted_desc_getitem l idx: keys l[i] first (IndexError), then as above
+  h[0] for a heapified h                                        pq_peek h: the least element (heap invariant), IndexError if empty
   g(e) with g a Callable parameter;  lambda x: e as an argument  application;  (fun x => e) with a pure int e
   compress(l, s) chain(l1, l2) accumulate(l) pairwise(l)       py_compress, ++, py_accumulate, py_pairwise
   range(n), range(a, b)                                        py_range
@@ -45,22 +51,28 @@ EXPRESSIONS (e : T means "e has inferred type T")
 STATEMENTS (a block is translated together with "what follows it", so a variable is only visible where Python binds it)
   x = e, x: T = e               let x := e in ...        (`x = f(..)` : bind (f ..) (fun x => ...))
   (a, b) = e                    let '(a, b) := e in ...  for a pair e
+  a, *rest = l                  bind (py_uncons l) (fun '(a, rest) => ...)      (ValueError on an empty l)
   x[i] = e, x.append(e)         re-binding of x to py_setitem x i e / x ++ [e]; only if x is a local initialised by a list
   x[i] += e, x[i] -= e          display, a list comprehension, list(..) or [..] * n that is never aliased (never bound to another
                                 name, stored or passed on), or a list owned by self listed in Target.state (below)
   heapq.heapify(h); heapq.heappush(h, p); x = heapq.heappop(h); (a, b) = heapq.heappop(h)
                                 on such a local list h of int pairs: re-binding of h to pq_heapify h / pq_push h p / the rest
                                 returned by pq_pop h (PyPrelude: the heap is a bag, pop removes the lexicographic minimum or
-                                raises IndexError); heappop only in these two statement forms
+                                raises IndexError); heappop only in these two statement forms; heapq.heapreplace(h, p) as a
+                                statement: pq_replace h p (pop the minimum, push p).  After heapify h has the type `heap`: only
+                                heapq calls and h[0] are allowed on it (the other heapq calls require a heapified list)
+  x = self.attr                 for an attribute listed in Target.state: x is a second name for the SAME list - reads and updates
+                                through x are those of the state list; x must be unbound before and is never re-bound
   if c: A elif d: B else: C     if c then A;rest else ...   (rest is duplicated into the branches that fall through);
-                                `if (y := e) <op> ...` binds y first; `if isinstance(x, Sequence)` on a Target.types union
-                                (`iro_t`) is a match that narrows x in both branches
+                                `if (y := e) <op> ...` binds y first; `if [not] isinstance(x, Sequence)` on a parameter whose type is
+                                listed in UNIONS is a match on x; x has the type of the case in the branch AND in the copy of what
+                                follows (falling back to the union type there if the narrowed type does not support a use)
   for x in l: / for a, b in l:  bind (py_for (fun state x => body; Ret state) l state) (fun state => rest); state = the locals
                                 bound before the loop that the body re-binds; no return/break/continue inside
   return e / raise E(..) / assert c          Ret e / Raise E k / if c then rest else Raise AssertionError k;
                                 k = Target.site_base + ordinal of the statement among the raise/assert statements of the function;
                                 `raise p` for a parameter p annotated Exception is Raise PassedException k;
-                                a function annotated `-> None` may fall off the end: Ret tt
+                                a function annotated `-> None` may fall off the end or `return` without a value: Ret tt
   def g(...) inside a function  lifted to a top-level definition; the enclosing function's variables it reads become its
                                 leading parameters (they must not be re-bound after the def)
   docstrings, pass, calls listed in Target.ignore_calls (logging), bare f-strings whose fields cannot raise      no effect
@@ -74,7 +86,9 @@ TARGET MODES  "function": a def (possibly a method, found by qualified name); it
           "alias": Class.method resolved through the single-inheritance chain of classes in the file: the translation of the
           defining class's method (an earlier target) gets the name Target.coq_name, `Ret tt` if no class of the chain defines it
           (the chain must end in a class named in Target.names, assumed not to define the method);  "exprs": the right-hand sides of the unique
-          assignments to the listed variable names inside a function, as functions of Target.atoms;  "prefix": the statements
+          assignments to the listed variable names inside a function, as functions of Target.atoms; a local that is bound exactly
+          once in the function, by `x = e` earlier in the same statement list, is replaced by e (assumption, as for the atoms:
+          the statements in between do not change what the atoms of e denote);  "prefix": the statements
           of a function up to (excluding) the first statement whose text starts with Target.stop_before, returning the tuple
           Target.returns of locals.
 """
@@ -102,7 +116,8 @@ ANN = {"int": "Z", "bool": "bool", "Sequence[int]": "list Z", "tuple[int, ...]":
 # `int | Sequence[int]`-like parameters: Gallina sum type -> (constructor, type) of the Sequence case and of the scalar case
 UNIONS = {"iro_t": (("IroSeq", "list pynum"), ("IroScalar", "pynum")), "root_override": (("OvList", "list Z"), ("OvInt", "Z"))}
 EXN = {"ValueError", "AssertionError", "IndexError", "ZeroDivisionError", "TypeError", "NotImplementedError", "ArithmeticError"}
-HEAPQ = ("heapq.heapify", "heapq.heappush", "heapq.heappop")
+HEAPQ = ("heapq.heapify", "heapq.heappush", "heapq.heappop", "heapq.heapreplace")
+HEAP = "heap"            # type of a local list of int pairs after heapq.heapify: only heapq calls and h[0] (the least element) are allowed on it
 RESERVED = {"end", "in", "at", "fix", "fun", "forall", "exists", "match", "with", "let", "if", "then", "else", "as", "return", "using", "where",
             "Type", "Set", "Prop", "fuel", "bind", "Ret", "Raise", "result", "list", "length", "map", "filter", "fst", "snd", "tensor", "nat", "Z", "bool", "S", "O"}
 
@@ -144,6 +159,8 @@ class Fn:
         self.ret_type = None
         self.mutated: set = set()
         self.state = [n for _, n, _ in tgt.state]
+        self.ret_unit = False      # the function is annotated `-> None`
+        self.inline: dict = {}     # exprs mode: name -> the expression bound to it just before (see Translator.exprs)
 
     # ---- helpers
     def fresh(self):
@@ -220,6 +237,14 @@ class Fn:
         return m(node, env, want)
 
     def e_Name(self, n, env, want):
+        if n.id in env.get("@alias", {}):                  # a local name for a list owned by self (Target.state): the same list
+            n = ast.copy_location(ast.Name(id=env["@alias"][n.id], ctx=ast.Load()), n)
+        if n.id not in env and n.id in self.inline:        # exprs mode: a local bound once, earlier in the same block, by `x = e`
+            node, self.inline = self.inline[n.id], {k: v for k, v in self.inline.items() if k != n.id}
+            try:
+                return self.expr(node, env, want)
+            finally:
+                self.inline[n.id] = node
         if n.id not in env:
             raise Untranslatable(n, f"name `{n.id}` is not a parameter, a local bound on every path, or a listed atom")
         return [], self.gname(n.id, env), env[n.id]
@@ -340,6 +365,17 @@ class Fn:
         return binds, codes, tys
 
     def e_List(self, n, env, want):
+        if any(isinstance(e, ast.Starred) for e in n.elts):                        # [a, *l, b] = [a] ++ l ++ [b]
+            binds, parts, ty = [], [], None
+            for e in n.elts:
+                b, c, t = self.expr(e.value if isinstance(e, ast.Starred) else e, env)
+                binds += b
+                t = t if isinstance(e, ast.Starred) else "list " + t
+                if not is_list(t) or (ty and not same(ty, t)):
+                    raise Untranslatable(n, f"list display mixing {ty} and {t}")
+                ty = t if ty in (None, "list ?") else ty
+                parts.append(c if isinstance(e, ast.Starred) else f"[{c}]")
+            return binds, "(" + " ++ ".join(parts) + ")", ty
         b, cs, ts = self.seq_of(n.elts, env)
         if not cs:
             return [], "[]", (want if want and is_list(want) else "list ?")
@@ -365,6 +401,9 @@ class Fn:
         if t.startswith("(") and t.count("*") == 1 and isinstance(n.slice, ast.Constant) and n.slice.value in (0, 1):
             a, bb = t[1:-1].split(" * ")
             return b, f"({'fst' if n.slice.value == 0 else 'snd'} {c})", (a if n.slice.value == 0 else bb)
+        if t == HEAP and isinstance(n.slice, ast.Constant) and n.slice.value == 0:
+            tmp = self.fresh()
+            return b + [(tmp, f"(pq_peek {c})")], tmp, "(Z * Z)"
         if not is_list(t):
             raise Untranslatable(n, f"subscript of a {t}")
         bi, ci, ti = self.expr(n.slice, env)
@@ -383,12 +422,16 @@ class Fn:
 
     def comprehension(self, node, env):
         """[e for x in l] / (e for x in l) as the argument of tuple()/list(): map, or py_mapM when e can raise"""
-        if len(node.generators) != 1 or node.generators[0].ifs or node.generators[0].is_async or not isinstance(node.generators[0].target, ast.Name):
-            raise Untranslatable(node, "comprehension with conditions, several `for` or a tuple target")
+        if len(node.generators) != 1 or node.generators[0].is_async or not isinstance(node.generators[0].target, ast.Name):
+            raise Untranslatable(node, "comprehension with several `for` or a tuple target")
         g = node.generators[0]
         b, c, t = self.expr(g.iter, env)
         if not is_list(t):
             raise Untranslatable(node, f"comprehension over a {t}")
+        for cond in g.ifs:                                 # [.. for x in l if c]: the elements of l that satisfy c (c pure), in order
+            c = f"(filter {self.pure_lambda(g.target.id, cond, env, elem(t), node)} {c})"
+        if isinstance(node.elt, ast.Name) and node.elt.id == g.target.id:
+            return b, c, t
         be, ce, te = self.expr(node.elt, {**env, g.target.id: elem(t)})
         x = ident(g.target.id)
         if not be:
@@ -409,6 +452,12 @@ class Fn:
             if t != "Z":
                 raise Untranslatable(n, f"callable parameter applied to a {t}")
             return b, f"({ident(f)} {c})", "Z"
+        if f == "accumulate" and len(args) == 1 and len(kws) == 1 and kws[0].arg == "initial":     # accumulate(l, initial=a) = accumulate(chain([a], l))
+            b, c, t = self.expr(args[0], env)
+            bi, ci, ti = self.expr(kws[0].value, env)
+            if t != "list Z" or ti != "Z":
+                raise Untranslatable(n, f"accumulate of a {t} with initial {ti}")
+            return b + bi, f"(py_accumulate ([{ci}] ++ {c}))", "list Z"
         if f in ("tuple", "list") and len(args) == 1 and not kws and isinstance(args[0], ast.GeneratorExp):
             return self.comprehension(args[0], env)
         if f == "len" and len(args) == 1 and isinstance(args[0], ast.Call) and unp(args[0].func) == "set" and len(args[0].args) == 1 and not kws:
@@ -424,6 +473,14 @@ class Fn:
         if f == "sorted":                      # only: sorted(l, key=<second component>, reverse=True) on pairs with an int second component
             kw = {k.arg: k.value for k in kws}
             key = kw.get("key")
+            if len(args) == 1 and set(kw) == {"key", "reverse"} and isinstance(key, ast.Attribute) and key.attr == "__getitem__" \
+                    and isinstance(kw["reverse"], ast.Constant) and kw["reverse"].value is True:
+                bl, cl, tl = self.expr(key.value, env)
+                b, c, t = self.expr(args[0], env)
+                if tl != "list Z" or t != "list Z":
+                    raise Untranslatable(n, f"sorted({t}, key=<{tl}>.__getitem__)")
+                tmp = self.fresh()
+                return b + bl + [(tmp, f"(py_sorted_desc_getitem {cl} {c})")], tmp, "list Z"
             by_snd = key is not None and (unp(key) == "operator.itemgetter(1)" or (isinstance(key, ast.Lambda) and len(key.args.args) == 1
                                           and unp(key.body) == f"{key.args.args[0].arg}[1]"))
             if len(args) != 1 or set(kw) != {"key", "reverse"} or not by_snd or not (isinstance(kw["reverse"], ast.Constant) and kw["reverse"].value is True):
@@ -489,6 +546,12 @@ class Fn:
             if t != "list bool":
                 raise Untranslatable(n, f"all(..) of a {t}")
             return b, f"(forallb (fun b_ => b_) {c})", "bool"
+        if f == "any" and len(args) == 1 and isinstance(args[0], ast.GeneratorExp) and not kws:       # any(not P ..) is not all(P ..): one normal form
+            elt = args[0].elt
+            inner = elt.operand if isinstance(elt, ast.UnaryOp) and isinstance(elt.op, ast.Not) else ast.copy_location(ast.UnaryOp(op=ast.Not(), operand=elt), elt)
+            call = ast.Call(func=ast.Name(id="all", ctx=ast.Load()), args=[ast.GeneratorExp(elt=inner, generators=args[0].generators)], keywords=[])
+            b, c, t = self.expr(ast.fix_missing_locations(ast.copy_location(call, n)), env)
+            return b, f"(negb {c})", "bool"
         if f == "all" and len(args) == 1 and isinstance(args[0], ast.GeneratorExp) and len(args[0].generators) == 1:
             g = args[0].generators[0]
             if g.ifs or g.is_async or not isinstance(g.target, ast.Name):
@@ -571,8 +634,8 @@ class Fn:
         for cv_owner, info in self.tr.funcs.items():
             if name in info["closure"] and info.get("owner") == self.name:
                 raise Untranslatable(node, f"`{name}` is read by the nested function {cv_owner} and re-bound after its definition")
-        if name in env.get("@ren", {}):
-            raise Untranslatable(node, f"`{name}` is re-bound inside an isinstance branch")
+        if name in env.get("@ren", {}) or name in env.get("@alias", {}):
+            raise Untranslatable(node, f"`{name}` is re-bound inside an isinstance branch / while it is an alias of a list owned by self")
         e2 = dict(env)
         e2[name] = ty
         if binds and binds[-1][0] == code:                 # x = <raising expression>: bind it directly to x
@@ -596,6 +659,16 @@ class Fn:
             else:
                 raise Untranslatable(s, "heappop must be bound to a name or a pair of names")
             return f"bind (pq_pop {ident(h)}) (fun {pat} =>\n{nxt({**env, **new})})"
+        if isinstance(tg, ast.Tuple) and len(tg.elts) == 2 and isinstance(tg.elts[0], ast.Name) and isinstance(tg.elts[1], ast.Starred) \
+                and isinstance(tg.elts[1].value, ast.Name):                               # first, *rest = l  (ValueError if l is empty)
+            b, c, t = self.expr(s.value, env)
+            if not is_list(t):
+                raise Untranslatable(s, f"star-unpacking of a {t}")
+            a, r = tg.elts[0].id, tg.elts[1].value.id
+            for v in (a, r):
+                if v in self.state or v in env.get("@ren", {}) or v in env.get("@alias", {}):
+                    raise Untranslatable(s, f"`{v}` cannot be re-bound here")
+            return self.wrap(b, f"bind (py_uncons {c}) (fun '({ident(a)}, {ident(r)}) =>\n{nxt({**env, a: elem(t), r: t})})")
         if isinstance(tg, ast.Tuple) and all(isinstance(e, ast.Name) for e in tg.elts):  # (a, b) = <pair>
             b, c, t = self.expr(s.value, env)
             if not (t.startswith("(") and t.count("*") == len(tg.elts) - 1 == 1):
@@ -607,12 +680,18 @@ class Fn:
                     raise Untranslatable(s, f"`{e.id}` cannot be re-bound here")
                 e2[e.id] = ty
             return self.wrap(b, f"let '({', '.join(ident(e.id) for e in tg.elts)}) := {c} in\n{nxt(e2)}")
+        if isinstance(tg, ast.Name) and self.atom(s.value) and self.atom(s.value)[0] in self.state:
+            # x = self.<state list>: x is another name for the SAME list; reads and updates through x are those of the state list
+            if tg.id in env or tg.id in self.state:
+                raise Untranslatable(s, f"`{tg.id}` is already bound; it cannot become an alias of a list owned by self")
+            return nxt({**env, "@alias": {**env.get("@alias", {}), tg.id: self.atom(s.value)[0]}})
         if isinstance(tg, ast.Name):
             want = env.get(tg.id)
             b, c, t = self.expr(s.value, env, want)
             return self.bind_var(tg.id, b, c, t, env, nxt, s)
         if isinstance(tg, ast.Subscript) and (isinstance(tg.value, ast.Name) or self.atom(tg.value)) and not isinstance(tg.slice, ast.Slice):
             x = tg.value.id if isinstance(tg.value, ast.Name) else self.atom(tg.value)[0]
+            x = env.get("@alias", {}).get(x, x)
             self.check_mutable(x, s)
             if x not in env or not is_list(env[x]):
                 raise Untranslatable(s, f"`{x}` is not a bound list")
@@ -648,20 +727,22 @@ class Fn:
             raise Untranslatable(call, "heapq call on something else than a local name")
         h = call.args[0].id
         self.check_mutable(h, call)
-        if env.get(h) != "list (Z * Z)":
-            raise Untranslatable(call, f"heapq on a {env.get(h)} (only lists of int pairs)")
+        if env.get(h) != (HEAP if unp(call.func) != "heapq.heapify" else "list (Z * Z)"):
+            raise Untranslatable(call, f"{unp(call.func)} on a {env.get(h)} (heapify: a list of int pairs; the others: a list that was heapified)")
         return h
 
     def s_Expr(self, s, env, nxt):
         v = s.value
         if isinstance(v, ast.Call) and unp(v.func) == "heapq.heapify":
             h = self.heap_arg(v, env, 1)
-            return f"let {ident(h)} := pq_heapify {ident(h)} in\n{nxt(env)}"
-        if isinstance(v, ast.Call) and unp(v.func) == "heapq.heappush":
+            return f"let {ident(h)} := pq_heapify {ident(h)} in\n{nxt({**env, h: HEAP})}"
+        if isinstance(v, ast.Call) and unp(v.func) in ("heapq.heappush", "heapq.heapreplace"):
             h = self.heap_arg(v, env, 2)
             b, c, t = self.expr(v.args[1], env)
             if t != "(Z * Z)":
-                raise Untranslatable(s, f"heappush of a {t}")
+                raise Untranslatable(s, f"{unp(v.func)} of a {t}")
+            if unp(v.func) == "heapq.heapreplace":         # the popped element is not used: statement form only
+                return self.wrap(b, f"bind (pq_replace {ident(h)} {c}) (fun {ident(h)} =>\n{nxt(env)})")
             return self.wrap(b, f"let {ident(h)} := pq_push {ident(h)} {c} in\n{nxt(env)}")
         if isinstance(v, ast.Call) and unp(v.func) in self.tgt.calls:                   # e.g. super().__post_init__(): run for its exceptions
             b, c, t = self.expr(v, env)
@@ -690,7 +771,9 @@ class Fn:
 
     def s_Return(self, s, env, nxt):
         if s.value is None:
-            raise Untranslatable(s, "return without a value")
+            if self.ret_unit:
+                return self.ret("tt")
+            raise Untranslatable(s, "return without a value in a function not annotated `-> None`")
         b, c, t = self.expr(s.value, env, self.ret_type)
         if self.ret_type is not None and not same(self.ret_type, t):
             raise Untranslatable(s, f"returns a {t}, other paths / the annotation say {self.ret_type}")
@@ -717,14 +800,23 @@ class Fn:
 
     def s_If(self, s, env, nxt):
         t = s.test
-        if isinstance(t, ast.Call) and unp(t.func) == "isinstance" and len(t.args) == 2 and isinstance(t.args[0], ast.Name) \
-                and unp(t.args[1]) == "Sequence" and env.get(t.args[0].id) in UNIONS:
-            x, ren, union = t.args[0].id, env.get("@ren", {}), env[t.args[0].id]
+        neg = isinstance(t, ast.UnaryOp) and isinstance(t.op, ast.Not)          # `if not isinstance(..)`: the same match, branches swapped
+        ti = t.operand if neg else t
+        if isinstance(ti, ast.Call) and unp(ti.func) == "isinstance" and len(ti.args) == 2 and isinstance(ti.args[0], ast.Name) \
+                and unp(ti.args[1]) == "Sequence" and env.get(ti.args[0].id) in UNIONS:
+            x, ren, union = ti.args[0].id, env.get("@ren", {}), env[ti.args[0].id]
             branches = []
             (sq, sqt), (sc, sct) = UNIONS[union]
-            for ctor, suffix, ty, stmts in ((sq, "_seq", sqt, s.body), (sc, "_scalar", sct, s.orelse)):
+            for ctor, suffix, ty, stmts in ((sq, "_seq", sqt, s.orelse if neg else s.body), (sc, "_scalar", sct, s.body if neg else s.orelse)):
                 e1 = {**env, x: ty, "@ren": {**ren, x: x + suffix}}
-                after = lambda e: nxt({**e, x: union, "@ren": ren})                  # noqa: E731  x has its union type again
+
+                def after(e, ty=ty, suffix=suffix):
+                    # what follows the statement is copied into this branch of the match, where x is still known to be of this
+                    # case; if it uses x in a way only the union type supports (x != 0 on a sequence) x gets its union type again
+                    try:
+                        return nxt({**e, x: ty, "@ren": {**ren, x: x + suffix}})
+                    except Untranslatable:
+                        return nxt({**e, x: union, "@ren": ren})
                 branches.append(f"| {ctor} {x + suffix} =>\n{self.block(stmts, e1, after)}")
             return f"match {self.gname(x, env)} with\n" + "\n".join(branches) + "\nend"
         if self.no_effect(s.body) and self.no_effect(s.orelse) and not self.truthy(t, env)[0]:
@@ -913,7 +1005,8 @@ class Translator:
                 safe = (isinstance(p, ast.Subscript) and p.value is n) or (isinstance(p, ast.BinOp) and isinstance(p.op, ast.Add)) \
                     or (isinstance(p, ast.Call) and unp(p.func) in ("len", "tuple", "list", "sum", "prod") and n in p.args) \
                     or (isinstance(p, ast.Attribute) and p.attr == "append" and p.value is n) or isinstance(p, ast.Return) \
-                    or (isinstance(p, ast.Call) and unp(p.func) in HEAPQ and p.args and p.args[0] is n)
+                    or (isinstance(p, ast.Call) and unp(p.func) in HEAPQ and p.args and p.args[0] is n) \
+                    or isinstance(p, ast.Starred)                                  # [*x, ..]: copied into a new list
                 if not safe:
                     ok.discard(n.id)
         return ok
@@ -945,7 +1038,7 @@ class Translator:
         ret = self.ann(fdef.returns, tgt, None) if fdef.returns is not None else None
         fn = Fn(self, tgt, fdef.name, recursive)
         fn.sites = self.sites_of(fdef)
-        fn.ret_type = None if ret == "unit" else ret
+        fn.ret_type, fn.ret_unit = (None, True) if ret == "unit" else (ret, False)
         fn.mutated = self.fresh_lists(fdef)
         env = {v: enclosing[1][v] for v in closure}
         env.update(dict(params))
@@ -978,6 +1071,14 @@ class Translator:
             if len(hits) != 1:
                 raise Untranslatable(tgt.qualname, f"expected exactly one assignment to `{name}`, found {len(hits)}")
             fn = Fn(self, tgt, name, False)
+            # locals the expression may mention: bound exactly once in the function, by a plain `x = e` standing earlier in the same
+            # statement list as the translated assignment; they are replaced by e (the statements in between are assumed not to
+            # change what the atoms of e denote - the same assumption the atoms themselves carry)
+            block = next(b for nd in ast.walk(fdef) for b in (getattr(nd, "body", None), getattr(nd, "orelse", None)) if isinstance(b, list) and hits[0] in b)
+            stores = [x.id for x in ast.walk(fdef) if isinstance(x, ast.Name) and isinstance(x.ctx, ast.Store)]
+            for st in block[:block.index(hits[0])]:
+                if isinstance(st, ast.Assign) and len(st.targets) == 1 and isinstance(st.targets[0], ast.Name) and stores.count(st.targets[0].id) == 1:
+                    fn.inline[st.targets[0].id] = st.value
             b, c, t = fn.expr(hits[0].value, {})
             self.emit(tgt.prefix + name, False, [(p, ty) for _, p, ty in tgt.atoms], t, fn.wrap(b, f"Ret {c}"))
 
